@@ -641,12 +641,9 @@ mod internal {
         /// Remove by index and drop it (by swapping the last one here and reducing the length).
         #[inline]
         pub(crate) unsafe fn remove_index_drop(&mut self, i: usize) {
-            self.item_drop(i);
-            self.len -= 1;
-            if i != self.len {
-                let value = self.item_read(self.len);
-                self.item_write(i, value);
-            }
+            // take the pair out and compact first, drop it last: if its destructor
+            // panics, the map no longer counts the dropped slot as live
+            drop(self.remove_index_read(i));
         }
 
         /// Remove by index and return it (by swapping the last one here and reducing the length).
